@@ -547,6 +547,15 @@ Definition handler (cfg : dconfig) (op : opcode) (key : byte) (insn : N) (st : d
 (* result of one Decode call: value or error, and the decoder state afterwards *)
 Definition dresult := (res val * dstate)%type.
 
+Definition is_stop (op : opcode) : bool := match op with OStop => true | _ => false end.
+
+(* d.popUser() at STOP *)
+Definition pop_user (st : dstate) : dresult :=
+  match d_stack st with
+  | [] => (Err EUnderflow, st)
+  | v :: t => if is_mark v then (Err EMarkUse, set_stack st t) else (Ok v, set_stack st t)
+  end.
+
 Fixpoint decode_loop (fuel : nat) (cfg : dconfig) (insn : N) (st : dstate) : prog dresult :=
   match fuel with
   | O => OOF
@@ -555,19 +564,14 @@ Fixpoint decode_loop (fuel : nat) (cfg : dconfig) (insn : N) (st : dstate) : pro
         let insn' := insn + 1 in
         match opcode_of_byte key with
         | None => Ret (Err (EOpcode key insn'), st)
-        | Some OStop =>
-            (* popUser *)
-            match d_stack st with
-            | [] => Ret (Err EUnderflow, st)
-            | v :: t => if is_mark v then Ret (Err EMarkUse, set_stack st t)
-                        else Ret (Ok v, set_stack st t)
-            end
         | Some op =>
-            bind (handler cfg op key insn' st) (fun o =>
-              match o with
-              | HOk st' => decode_loop f cfg insn' st'
-              | HErr st' e => Ret (Err e, st')
-              end)
+            if is_stop op then Ret (pop_user st)
+            else
+              bind (handler cfg op key insn' st) (fun o =>
+                match o with
+                | HOk st' => decode_loop f cfg insn' st'
+                | HErr st' e => Ret (Err e, st')
+                end)
         end)
   end.
 
@@ -608,22 +612,24 @@ Definition decode_stream (cfg : dconfig) (inp : bytes) : list (res val * dstate)
   fst (decode_all (S (S (length inp))) cfg init_state inp).
 
 (* ghost: does the value still contain a view of a list that was extended elsewhere? *)
-Fixpoint has_stale_fuel (fuel : nat) (st : dstate) (v : val) : bool :=
+Fixpoint has_stale_fuel (fuel : nat) (st : dstate) (path : list N) (v : val) : bool :=
   match fuel with
   | O => false
   | S f =>
-      let any := existsb (has_stale_fuel f st) in
+      let any := existsb (has_stale_fuel f st path) in
       match v with
       | VList lid l => negb (Nlen l =? cur_len st lid) || any l
       | VTuple l | VCall _ _ l => any l
-      | VRef p => has_stale_fuel f st p
+      | VRef p => has_stale_fuel f st path p
       | VMap id | VDict id =>
+          if existsb (N.eqb id) path then false else
           match heap_get (d_heap st) id with
           | Some (HMap es) | Some (HDict es) =>
-              existsb (fun kv => has_stale_fuel f st (fst kv) || has_stale_fuel f st (snd kv)) es
+              existsb (fun kv => has_stale_fuel f st (id :: path) (fst kv)
+                                 || has_stale_fuel f st (id :: path) (snd kv)) es
           | None => false
           end
       | _ => false
       end
   end.
-Definition has_stale (st : dstate) (v : val) : bool := has_stale_fuel (N.to_nat 100000) st v.
+Definition has_stale (st : dstate) (v : val) : bool := has_stale_fuel (N.to_nat 100000) st [] v.
